@@ -114,7 +114,7 @@ PROPS = {
         "trusted_base": ["Model/Cluster.v transcription of flip_each_cluster_rng incl. its exploration order (validated by raw-tape replay: cluster numbering decides which RNG word flips which cluster)"],
     },
     "C06": {
-        "harness_cmd": ["steps", "c10", "rvb"],
+        "harness_cmd": ["steps", "c10", "rvb", "c15"],
         "oracle_props": ["C06"],
         "property_files": ["C06.v"],
         "expected_theorems": ["C06_metropolis_slot_spec", "C06_heatbath_slot_spec", "C06_diagonal_update_keeps_worldline", "C06_refresh_keeps_worldline",
